@@ -346,7 +346,13 @@ pub fn on_demand(g: &Graph, requests: &[u32], threads: usize) -> Value {
     let mut discs: Vec<Value> = c
         .discoveries()
         .into_iter()
-        .map(|(n, p)| json!({"name": n, "states": p.into_states()}))
+        .map(|(n, p)| {
+            // the path rebuilt from fingerprints, and the same execution rebuilt from its action list and its encoding
+            let acts = p.clone().into_actions();
+            let states = p.clone().into_states();
+            let via_actions = Path::from_actions(&model, states[0], acts.iter()).map(|q| q.into_states()).unwrap_or_default();
+            json!({"name": n, "states": states, "acts": acts, "via_actions": via_actions})
+        })
         .collect();
     discs.sort_by_key(|d| d["name"].as_str().unwrap().to_string());
     json!({"requests": requests, "threads": threads, "idle_visits": idle_visits, "steps": seen_after, "before_rtc": before_rtc,
